@@ -32,6 +32,8 @@ claimed = {
          "must-execute + dependency + loop-coverage analysis", "§4 C13"),
  "C14": ("strong structural claim (level other): must-executed range check of FriPowResponse with width 64-ProofOfWorkBits, dependent on PowWitness, live in every backend (C06), widths aligned (W3).",
          "must-execute + origin/width-expression analysis", "§4 C14"),
+ "C15": ("narrow structural clauses only (level other): the selector-filtering and position-wise-sum half of the property, decided on the SSA of plonk/gates — every gate evaluated once with its own row, selectorIndices[i], groups[selectorIndices[i]] and NumSelectors(); results added position-wise into a zeroed, returned vector; the selector constant read before RemovePrefix, exactly numSelectors constants stripped before the gate sees them, every returned constraint multiplied by the filter; computeFilter = ∏(i−s) over [start,end) skipping exactly i = row, times (UNUSED_SELECTOR−s) iff several selector polynomials, UNUSED_SELECTOR = 2^32−1. Equality of each Gate.EvalUnfiltered body with plonky2's gate polynomial for all wire values and parameterisations is numeric and NOT decided.",
+         "SSA shape matching of the fold/map loops (counted-loop descriptors, must-execute, φ recurrences) + argument-role flow between caller and callee", "§5 C15 / §10.7"),
  "C16": ("presence and coverage only (level other) of the per-round extension equality and the L0 existence assertion.",
          "must-execute + dependency + loop-coverage analysis", "§4 C16"),
  "C17": ("strong structural claim (level other): T2 coverage generated from go/types — every Goldilocks-typed leaf of the proof (both coordinates) reaches the canonical range check itself, on every path, with full loop coverage; plus C06.",
@@ -44,7 +46,6 @@ claimed = {
          "T3 guard table over must-execute analysis", "§4 C20"),
 }
 not_applicable = {
- "C15": "numeric equality of 14 gate polynomial families for all wire values and parameterisations; the selector-filter structure is test-pinned; identifier-to-gate binding is C18 (DESIGN §5)",
 }
 built = set(l.strip() for l in open(os.path.join(D, "claimed.txt")) if l.strip())
 checks = []
